@@ -69,6 +69,16 @@ def all_exited(processes):
     return True
 
 
+def one_failed(processes):
+    """
+    Check if at least one process has terminated with a non-zero exit code
+    """
+    for p in processes:
+        if p.exitcode not in (None, 0):
+            return True
+    return False
+
+
 def run_realign(gaf, graph, fasta, output=None, cores=1):
     timers = StageTimer()
 
@@ -206,6 +216,14 @@ def realign_gaf(gaf, graph, fasta, output, cores=1):
                 try:
                     out_string_obj = align_queue.get(timeout=0.5)
                 except queue.Empty:  # queue throws Empty exception after timeout
+                    # a worker that was killed can leave the queue's write lock locked, which
+                    # blocks the remaining workers forever: stop them instead of waiting for them
+                    # (and wait until they are gone, nothing they still send can be used)
+                    if one_failed(processes):
+                        for p in processes:
+                            p.terminate()
+                        for p in processes:
+                            p.join()
                     # check if all threads are still alive
                     if one_is_alive(processes):
                         continue
@@ -255,6 +273,14 @@ def realign_gaf(gaf, graph, fasta, output, cores=1):
             try:
                 out_string_obj = align_queue.get(timeout=0.1)
             except queue.Empty:
+                # a worker that was killed can leave the queue's write lock locked, which
+                # blocks the remaining workers forever: stop them instead of waiting for them
+                # (and wait until they are gone, nothing they still send can be used)
+                if one_failed(processes):
+                    for p in processes:
+                        p.terminate()
+                    for p in processes:
+                        p.join()
                 # check if all threads are still alive
                 if one_is_alive(processes):
                     continue
